@@ -27,7 +27,9 @@ No == [t |-> "no", i |-> 0]
 Kind(x, objs) == IF x.t = "obj" THEN objs[x.i].k ELSE x.t
 \* ---- the Python operators:  add a+b | sub a-b | mul a*b | div a/b | neg -a | sq a**2 | pow3 a**3 |
 \*                             le a<=b | ge a>=b | lt a<b | gt a>b | eq a==b
-BinOps == {"add", "sub", "mul", "div", "le", "ge", "lt", "gt", "eq"}
+\*                             mx11 / mx12: entry [0,0] / [0,1] of PSDMatrix([[a, b], [b, a]])  (PEPit/psd_matrix.py: scalars
+\*                             become constant expressions, expressions are stored as they are, anything else raises)
+BinOps == {"add", "sub", "mul", "div", "le", "ge", "lt", "gt", "eq", "mx11", "mx12"}
 UnOps == {"neg", "sq", "pow3"}
 Apply(o, objs) ==
   LET ka == Kind(o.a, objs)  kb == Kind(o.b, objs)
@@ -66,6 +68,8 @@ Apply(o, objs) ==
     [] o.op \in {"le", "lt"} -> IF cmpOK THEN Co(ESub(L, R), "ineq") ELSE Raised
     [] o.op \in {"ge", "gt"} -> IF cmpOK THEN Co(ESub(R, L), "ineq") ELSE Raised
     [] o.op = "eq" -> IF cmpOK THEN Co(ESub(L, R), "eq") ELSE Raised
+    [] o.op = "mx11" -> IF cmpOK THEN Ex(L) ELSE Raised
+    [] o.op = "mx12" -> IF cmpOK THEN Ex(R) ELSE Raised
 \* ---- denotational semantics on a box of environments (2-dimensional vectors)
 Envs == [x : [1..NP -> {-1, 1}], y : [1..NP -> {0, 1}], f : [1..NE -> {-1, 2}]]
 PEnv(env) == [k \in 1..NP |-> <<RI(env.x[k]), RI(env.y[k])>>]
@@ -96,6 +100,8 @@ Meaning(o, objs, R, env) ==
     [] o.op \in {"le", "lt"} -> R.sense = "ineq" /\ DenE(R.e, env) = RSub(na, nb)
     [] o.op \in {"ge", "gt"} -> R.sense = "ineq" /\ DenE(R.e, env) = RSub(nb, na)
     [] o.op = "eq" -> R.sense = "eq" /\ DenE(R.e, env) = RSub(na, nb)
+    [] o.op = "mx11" -> DenE(R.e, env) = na
+    [] o.op = "mx12" -> DenE(R.e, env) = nb
 \* ---- state machine
 VARIABLES objs, hist, done
 vars == <<objs, hist, done>>
@@ -109,8 +115,9 @@ ScI == 1..Len(Scalars)
 WellTyped ==
        {[op |-> n, a |-> Obj(i), b |-> Obj(j)] : n \in {"add", "sub", "mul"}, i \in Idx("pt"), j \in Idx("pt")}
   \cup {[op |-> n, a |-> Obj(i), b |-> Obj(j)] : n \in {"add", "sub", "le", "ge", "lt", "gt", "eq"}, i \in Idx("ex"), j \in Idx("ex")}
-  \cup {[op |-> n, a |-> Obj(i), b |-> Sc(s)] : n \in {"add", "sub", "mul", "div", "le", "ge", "lt", "gt", "eq"}, i \in Idx("ex"), s \in ScI}
-  \cup {[op |-> n, a |-> Sc(s), b |-> Obj(i)] : n \in {"add", "sub", "mul", "le", "ge", "lt", "gt", "eq"}, i \in Idx("ex"), s \in ScI}
+  \cup {[op |-> n, a |-> Obj(i), b |-> Sc(s)] : n \in {"add", "sub", "mul", "div", "le", "ge", "lt", "gt", "eq", "mx11", "mx12"}, i \in Idx("ex"), s \in ScI}
+  \cup {[op |-> n, a |-> Sc(s), b |-> Obj(i)] : n \in {"add", "sub", "mul", "le", "ge", "lt", "gt", "eq", "mx11", "mx12"}, i \in Idx("ex"), s \in ScI}
+  \cup {[op |-> n, a |-> Obj(i), b |-> Obj(j)] : n \in {"mx11", "mx12"}, i \in Idx("ex"), j \in Idx("ex")}
   \cup {[op |-> n, a |-> Obj(i), b |-> Sc(s)] : n \in {"mul", "div"}, i \in Idx("pt"), s \in ScI}
   \cup {[op |-> "mul", a |-> Sc(s), b |-> Obj(i)] : i \in Idx("pt"), s \in ScI}
   \cup {[op |-> n, a |-> Obj(i), b |-> No] : n \in {"neg"}, i \in Idx("pt") \cup Idx("ex")}
